@@ -1,28 +1,50 @@
 #!/usr/bin/env python3
-"""False-alarm hunt: run every check against every property-preserving patch in benign/ (made by independent
+"""usage: tools/benign.py [streams] [names...]
+False-alarm hunt: run every check against every property-preserving patch in benign/ (made by independent
 sub-agents who saw only the property texts). Any exit code other than 0 is an alarm on code where the
 properties hold and must be analysed.  Writes benign/results.json."""
-import sys, os, json, glob, subprocess, re, time
+import sys, os, json, glob, subprocess, re, time, threading
 VERIF = os.path.dirname(os.path.dirname(os.path.abspath(__file__)))
 CHECKS = ["C01", "C07", "C12", "C13", "C14", "C15", "C17", "C18", "C20"]
-only = sys.argv[1:]
+args = sys.argv[1:]
+streams = 1
+if args and args[0].isdigit():
+    streams = int(args[0]); args = args[1:]
+only = args
 out = {}
 resf = os.path.join(VERIF, "benign", "results.json")
-if os.path.exists(resf):
+if os.path.exists(resf) and only:
     out = json.load(open(resf))
+todo = []
 for d in sorted(glob.glob(os.path.join(VERIF, "benign", "B*-*"))):
     name = os.path.basename(d)
     if only and name not in only:
         continue
     for pid in CHECKS:
-        key = name + "/" + pid
-        extra = ["--runs", "16"] if pid == "C01" else []
-        env = dict(os.environ, VERIF_RUN_TIMEOUT="60")
-        p = subprocess.run([os.path.join(VERIF, "tools", "mutest.sh"), os.path.join(d, "patch.diff"), pid] + extra, stdout=subprocess.PIPE, stderr=subprocess.STDOUT, text=True, env=env)
-        m = re.search(r"rc=(\d+)", p.stdout)
-        rc = int(m.group(1)) if m else -1
-        classes = re.findall(r"class=(\S+) site=(.*)", p.stdout)
+        todo.append((name, d, pid))
+lock = threading.Lock()
+def one(name, d, pid):
+    key = name + "/" + pid
+    extra = ["--runs", "16"] if pid == "C01" else []
+    if streams > 1:
+        extra += ["--jobs", str(max(2, 16 // streams))]
+    env = dict(os.environ, VERIF_RUN_TIMEOUT="90")
+    p = subprocess.run([os.path.join(VERIF, "tools", "mutest.sh"), os.path.join(d, "patch.diff"), pid] + extra, stdout=subprocess.PIPE, stderr=subprocess.STDOUT, text=True, env=env)
+    m = re.search(r"rc=(\d+)", p.stdout)
+    rc = int(m.group(1)) if m else -1
+    classes = re.findall(r"class=(\S+) site=(.*)", p.stdout)
+    with lock:
         out[key] = {"rc": rc, "alarm": rc != 0, "classes": [c[0] + " @ " + c[1][:100] for c in classes][:3], "tail": p.stdout[-400:] if rc != 0 else ""}
         print(key, "rc=%d" % rc, out[key]["classes"][:1], flush=True)
         json.dump(out, open(resf, "w"), indent=1, sort_keys=True)
+def worker():
+    while True:
+        with lock:
+            if not todo:
+                return
+            j = todo.pop(0)
+        one(*j)
+ts = [threading.Thread(target=worker) for _ in range(streams)]
+for t in ts: t.start()
+for t in ts: t.join()
 print("alarms: %d of %d" % (sum(1 for v in out.values() if v["alarm"]), len(out)))
